@@ -178,7 +178,11 @@ fn triple_workload(ctx: &Ctx, ci: usize, n: u8, distinct: &Distinct, direct_nont
     let nontriv = |t: &[u32; 3]| t[1] != mid || t[2] != mid;
     if n == 8 {
         // all 2^24 triples, in chunks of 2^16 (fixed V, all Y x U)
+        let lite = ctx.flag("lite");
         for v in 0..256u32 {
+            if lite && v % 8 != (ctx.seed % 8) as u32 && v != 0 && v != 255 && v != 128 {
+                continue;
+            }
             let tri: Vec<[u32; 3]> = (0..65536u32).map(|i| [i & 255, i >> 8, v]).collect();
             direct_nontrivial.fetch_add(tri.iter().filter(|t| nontriv(t)).count() as u64, Relaxed);
             f(&tri, true);
@@ -218,7 +222,7 @@ fn triple_workload(ctx: &Ctx, ci: usize, n: u8, distinct: &Distinct, direct_nont
     }
     f(&tri, false);
     // random triples
-    let total: u64 = ctx.arg_u64("triples").unwrap_or(ctx.pick(1 << 18, 1 << 24));
+    let total: u64 = ctx.arg_u64("triples").unwrap_or(if ctx.flag("lite") { 1 << 15 } else { ctx.pick(1 << 18, 1 << 24) });
     let mut rng = Rng::new(ctx.seed, 0x0C01_0000 + ci as u64);
     let mut done = 0u64;
     while done < total {
@@ -578,7 +582,7 @@ fn encode_check<T: Pixel>(ci: usize, (m, full, n): (MC, bool, u8), px: &[[f32; 3
 pub fn c02(ctx: &Ctx) {
     let cfgs = configs();
     let per_cfg: Mutex<Vec<J>> = Mutex::new(Vec::new());
-    let count: usize = ctx.arg_u64("pixels").unwrap_or(ctx.pick(1 << 17, 1 << 22)) as usize;
+    let count: usize = ctx.arg_u64("pixels").unwrap_or(if ctx.flag("lite") { 1 << 14 } else { ctx.pick(1 << 17, 1 << 22) }) as usize;
     let distinct = Distinct::new(ctx.pick(27, 31));
     let evals = AtomicU64::new(0);
     let tot = Mutex::new(([0u64; 12], [0u64; 3], [0u64; 3], [0u64; 3], [0u64; 6]));
